@@ -8,7 +8,7 @@
 (* written behind the message in the same stream must be read back, with   *)
 (* nothing remaining.                                                      *)
 (***************************************************************************)
-EXTENDS Versions, TLC, Json, SequencesExt, Functions
+EXTENDS Versions, Tags, TLC, Json, SequencesExt, Functions
 
 CONSTANTS Dev, AMax, PayloadSizes
 
@@ -45,16 +45,25 @@ NestedAddList(a) == TSeq(<<Comp(I07, "man", <<>>), Comp(TSeqOf(Flat(1, a), NoSz)
 NestedAddSeq(a) == TSeq(<<Comp(I07, "man", <<>>),
                           Comp(TSeq(<<Comp(Flat(1, a), "man", <<>>), Comp(I07, "man", <<>>)>>, 2, FALSE), "man", <<>>)>>, 1, TRUE)
 
+\* a SET (no automatic tagging) whose untagged component is the versioned CHOICE with explicitly tagged alternatives; the
+\* appended alternatives carry SMALLER tags than every root alternative and than the other component.  The tag a CHOICE is
+\* ordered by is the smallest tag of its ROOT alternatives (X.680 8.6 / Tags!TypeTag): the wire order of the SET is the same
+\* in every version
+SetChoice(a) ==
+  LET ch == TChoiceT(ChoiceV(a).alts, << <<2, 20>>, <<2, 21>> >> \o [j \in 1..a |-> <<2, j>>], 2, TRUE)
+  IN TSetT(<<CompT(I07, "man", <<>>, <<2, 10>>), CompT(ch, "man", <<>>, <<>>)>>, 2, FALSE)
+
 \* family f, version a (0..AMax)
 \* wide families: version a has WBase + a additions, so that the versions lie on both sides of addition index 64 / of 64
 \* additions (the normally small number of 11.6 changes its form there)
 WBase == 62
 Fams == <<"flat1", "flat2", "choice", "enum", "nadd", "nalt", "nroot", "list", "both", "naddlist", "naddseq",
-          "enumwide", "choicewide", "flatwide">>
+          "enumwide", "choicewide", "flatwide", "setchoice">>
 Ver(f, a) ==
   CASE f = "flat1" -> Flat(1, a) [] f = "flat2" -> Flat(2, a) [] f = "choice" -> ChoiceV(a) [] f = "enum" -> EnumV(a)
     [] f = "nadd" -> NestedAdd(a) [] f = "nalt" -> NestedAlt(a) [] f = "nroot" -> NestedRoot(a) [] f = "list" -> ListOf(a)
     [] f = "both" -> Both(a) [] f = "naddlist" -> NestedAddList(a) [] f = "naddseq" -> NestedAddSeq(a)
+    [] f = "setchoice" -> SetChoice(a)
     [] f = "enumwide" -> EnumV(WBase + a) [] f = "choicewide" -> ChoiceV(WBase + a) [] f = "flatwide" -> Flat(1, WBase + a)
 
 \* zoo: index 1 is the sentinel type, then (family, version) in order
@@ -92,6 +101,7 @@ ValSeq(f, a) ==
     [] f = "choice" -> <<[i |-> 0, v |-> 5], [i |-> 1, v |-> TRUE]>>
                         \o [j \in 1..a |-> [i |-> j + 1, v |-> IF j % 3 = 1 THEN Payload(2) ELSE IF j % 3 = 2 THEN 6 ELSE 0]]
     [] f = "enum" -> [j \in 1..(2 + a) |-> j - 1]
+    [] f = "setchoice" -> LET cs == ChoiceVals(a) IN [j \in 1..Len(cs) |-> << <<5>>, <<cs[j]>> >>]
     [] f = "enumwide" -> [j \in 1..(2 + WBase + a) |-> j - 1]
     [] f = "choicewide" -> ChoiceVals(WBase + a)
     \* (2^65 presence patterns are out of reach) everything present; only the first addition; the first and the last one
